@@ -596,3 +596,17 @@ CORPUS += [
     # Compute log probabilities
     return F.log_softmax(filtered, dim=-1)''', "C10.a"),
 ]
+
+CORPUS += [
+    # ---------------------------------------------------------------- from seeded defects (second batch)
+    V("C20", "welford-old-mean-aliases-inplace-update", UTF, "        # newvalues - oldMean\n        delta = batch - self.mean\n        self.mean += (delta / self.count).sum()\n        # newvalues - newMeant\n        delta2 = batch - self.mean\n        self.M2 += (delta * delta2).sum()",
+      "        old_mean = self.mean\n        self.mean += ((batch - old_mean) / self.count).sum()\n        self.M2 += ((batch - old_mean) * (batch - self.mean)).sum()", "C20.a"),
+    V("C12", "sample-starts-replacement-too-eager", OPSF, "    if n_valid_actions < n:\n        replace = True", "    if n_valid_actions <= n:\n        replace = True", "C12.d"),
+    V("C14", "tsp-context-stack-positive-dim", CTXF, 'torch.stack([td["first_node"], td["current_node"]], -1).view(', 'torch.stack([td["first_node"], td["current_node"]], 1).view(', "C14.d"),
+    V("C11", "evaluate-filters-decoding-kwargs", CPB, '            decode_type = "evaluate"\n', '            decode_type = "evaluate"\n            decoding_kwargs = {k: v for k, v in decoding_kwargs.items() if k in ("temperature",)}\n', "C11.c"),
+    V("C17", "fastgen-slice-fast-path", DSF, "        return TensorDict(\n            {key: item[index] for key, item in self.data.items()},", "        if index[-1] - index[0] == len(index) - 1:\n            index = slice(index[0], index[-1] + 1)\n        return TensorDict(\n            {key: item[index] for key, item in self.data.items()},", "C17.d"),
+    V("C17", "val-loader-follows-train-shuffle", "rl4co/models/rl/common/base.py", "    def _dataloader_single(self, dataset, batch_size, shuffle=False):", "    def _dataloader_single(self, dataset, batch_size, shuffle=None):", "C17.b"),
+    V("C19", "npz-loader-memoised", "rl4co/data/utils.py", "def load_npz_to_tensordict(filename):", "@__import__('functools').lru_cache(maxsize=32)\ndef load_npz_to_tensordict(filename):", "C19.a"),
+    V("C19", "fjsp-reader-pad-mask-gt", FPF, "pad_mask = pad_mask.ge(total_ops).unsqueeze(0)", "pad_mask = pad_mask.gt(total_ops).unsqueeze(0)", "C19.c"),
+    V("C19", "checkpoint-hook-after-load", RFF, "            loaded.setup()\n            loaded.post_setup_hook()\n", "            loaded.setup()\n", "C19.e"),
+]
